@@ -168,4 +168,4 @@ PINNED = [
                            ["z", {"kind": "num", "dtype": "float64", "values": [float(i % 5) + 0.5 for i in range(12)]}]],
                   "formula": "1 + x + y + B:A", "lhs": False, "output": "pandas", "subset_k": 2, "subset_seed": 3, "shape": [1, 1, 2], "levels": {"A": 2, "B": 2, "G": 2}}),
 ]
-SUBS = {"metadata": Sub(judge=judge, gen=gen_case, quick=1200, thorough=100_000, min_decided=300)}
+SUBS = {"metadata": Sub(judge=judge, gen=gen_case, quick=3000, thorough=100_000, min_decided=300)}
